@@ -44,6 +44,7 @@ type record struct {
 	Known       []knownHit       `json:"known_hits"`
 	Excluded    map[string]int64 `json:"excluded"`
 	Notes       []string         `json:"notes"`
+	Observed    []knownHit       `json:"observed_violations"`
 }
 
 const maxDistinct = 400000
@@ -59,6 +60,7 @@ var (
 	known    = map[string]finding{}
 	hits     = map[string]*knownHit{}
 	excluded = map[string]int64{}
+	observed []knownHit
 	notes    []string
 	loaded   bool
 )
@@ -208,6 +210,18 @@ func Violation(t TB, property, key, format string, args ...interface{}) bool {
 	if ok {
 		return false
 	}
+	// remember it durably first: a process that dies afterwards (out of memory while shrinking, a wedged goroutine)
+	// must not turn an observed violation into an infrastructure problem
+	mu.Lock()
+	if len(observed) < 5 {
+		d := detail
+		if len(d) > 2000 {
+			d = d[:2000]
+		}
+		observed = append(observed, knownHit{Key: property + "/" + key, Detail: d, Count: 1})
+	}
+	mu.Unlock()
+	Flush()
 	t.Fatalf("VIOLATION-KEY %s/%s :: %s", property, key, detail)
 	return true
 }
@@ -220,7 +234,7 @@ func Flush() {
 	}
 	mu.Lock()
 	defer mu.Unlock()
-	r := record{Evaluations: evals, NonTrivial: nontriv, Labels: labels, Samples: samples, Excluded: excluded, Notes: notes}
+	r := record{Evaluations: evals, NonTrivial: nontriv, Labels: labels, Samples: samples, Excluded: excluded, Notes: notes, Observed: observed}
 	for h := range distinct {
 		r.Distinct = append(r.Distinct, strconv.FormatUint(h, 36))
 	}
